@@ -22,7 +22,7 @@ def ensure_scratch():
 PKGDIRS = {'local': 'pkg/blobstore/local', 'configuration': 'pkg/blobstore/configuration', 'buffer': 'pkg/blobstore/buffer',
            'mirrored': 'pkg/blobstore/mirrored', 'sharding': 'pkg/blobstore/sharding', 'replication': 'pkg/blobstore/replication',
            'completenesschecking': 'pkg/blobstore/completenesschecking', 'grpcservers': 'pkg/blobstore/grpcservers',
-           'readcaching': 'pkg/blobstore/readcaching', 'readfallback': 'pkg/blobstore/readfallback',
+           'readcaching': 'pkg/blobstore/readcaching', 'grpcclients': 'pkg/blobstore/grpcclients', 'readfallback': 'pkg/blobstore/readfallback',
            'blobstore': 'pkg/blobstore', 'auth': 'pkg/auth', 'digest': 'pkg/digest', 'util': 'pkg/util'}
 
 def pkgdir_of_file(f):
@@ -51,7 +51,7 @@ def run_demos(pkgdirs):
 def main():
     ensure_scratch()
     results = {}
-    dirs = sorted(glob.glob('/tmp/mutout-[a-z]*/C[0-9][0-9]-[0-9]'))
+    dirs = sorted(glob.glob('/tmp/mutout-[a-z]*/C[0-9][0-9]-[0-9]*'))
     only = sys.argv[1:]
     for d in dirs:
         sid = os.path.basename(d)
